@@ -86,7 +86,7 @@ func (x *Exec) resolveCall(fr *Frame, in *ssa.Function, c *ssa.CallCommon) callR
 	if len(callee.Blocks) > 0 && countInstrs(callee) <= inlineMaxInstrs && (fr == nil || fr.depth < x.inlineLimit()) && !x.onStack(fr, callee) {
 		if fr != nil && fr.topFC() != nil {
 			for _, o := range fr.topFC().Opaque {
-				if o == funcKey(callee) {
+				if o == funcKey(callee) || o == "*" {
 					return callRes{kind: ckHavoc, callee: callee}
 				}
 			}
@@ -176,9 +176,61 @@ func (x *Exec) call(fr *Frame, st *State, c *ssa.CallCommon, instr ssa.Value, po
 	} else {
 		name = "func value " + c.Value.Name()
 	}
+	if res.callee != nil && x.havocCallee(fr, st, res.callee, c) {
+		return x.freshResult(st, rt, "call")
+	}
 	x.havocAll = append(x.havocAll, fmt.Sprintf("%s at %s", name, x.posString(pos)))
 	x.havocAllMem(st)
 	return x.freshResult(st, rt, "call")
+}
+
+// havocCallee over-approximates a call to a function with a known body that is neither inlined nor
+// under contract: everything its body (and its callees, to depth 4) may write according to the
+// static write analysis becomes arbitrary, the results are arbitrary.  Returns false when the
+// analysis cannot bound the writes (the caller then forgets the whole memory).
+func (x *Exec) havocCallee(fr *Frame, st *State, callee *ssa.Function, c *ssa.CallCommon) bool {
+	if len(callee.Blocks) == 0 || c == nil {
+		return false
+	}
+	params := map[*ssa.Parameter][]sroot{}
+	env := newStaticEnv(fr.fn, fr.sparams)
+	if len(c.Args) != len(callee.Params) {
+		return false
+	}
+	for i, p := range callee.Params {
+		switch pt := p.Type().Underlying().(type) {
+		case *types.Pointer:
+			params[p] = env.roots(c.Args[i])
+		case *types.Slice:
+			params[p] = env.sliceElemRoots(c.Args[i], pt.Elem())
+		}
+	}
+	m := &modSet{}
+	x.funcWrites(fr, callee, params, m, 1)
+	if m.all {
+		return false
+	}
+	for _, k := range m.comps {
+		if s0, ok := x.compSort[k.key]; ok && s0 != k.sort {
+			return false
+		}
+		x.compSort[k.key] = k.sort
+		st.mem[k.key] = x.fresh("Hc", k.sort)
+	}
+	for _, p := range m.prefixes {
+		x.havocPrefix(st, p)
+	}
+	var facts []string
+	for _, a := range m.allocs {
+		if old, ok := st.cells[a]; ok {
+			nv, f := x.freshVal("cv_"+sanitize(a.Comment), old.Typ)
+			st.cells[a] = nv
+			facts = append(facts, f)
+		}
+	}
+	x.assume(st, smtAnd(facts...))
+	x.opaqueCalls = append(x.opaqueCalls, callee.String())
+	return true
 }
 
 func (x *Exec) freshResult(st *State, rt types.Type, hint string) Val {
@@ -213,9 +265,14 @@ func (x *Exec) staticCall(fr *Frame, st *State, callee *ssa.Function, args []Val
 	case ckModel:
 		return res.model.exec(x, fr, st, c, args, rt, pos)
 	case ckContract:
+		x.curCall = c
+		defer func() { x.curCall = nil }()
 		return x.applyContract(fr, st, callee, res.fc, args, rt, pos)
 	case ckInline:
 		return x.inline(fr, st, callee, args, nil, rt, pos, c)
+	}
+	if x.havocCallee(fr, st, callee, c) {
+		return x.freshResult(st, rt, "call")
 	}
 	x.havocAll = append(x.havocAll, fmt.Sprintf("%s at %s", callee.String(), x.posString(pos)))
 	x.havocAllMem(st)
@@ -314,8 +371,11 @@ func (x *Exec) applyContractR(fr *Frame, st *State, callee *ssa.Function, fc *Fu
 	old := st.clone()
 	// havoc
 	if !fc.HasAssign {
-		x.havocAll = append(x.havocAll, fmt.Sprintf("%s (contract without assigns) at %s", fc.Key, x.posString(pos)))
-		x.havocAllMem(st)
+		// no frame clause: everything the body may write according to the static analysis
+		if x.curCall == nil || !x.havocCallee(fr, st, callee, x.curCall) {
+			x.havocAll = append(x.havocAll, fmt.Sprintf("%s (contract without assigns) at %s", fc.Key, x.posString(pos)))
+			x.havocAllMem(st)
+		}
 	} else {
 		for _, pat := range fc.Assigns {
 			if err := x.havocPattern(env, st, pat); err != nil {
